@@ -18,3 +18,4 @@ func RaceErrors() int { return runtime.RaceErrors() }
 
 func raceAcquire(p unsafe.Pointer) { runtime.RaceAcquire(p) }
 func raceRelease(p unsafe.Pointer) { runtime.RaceRelease(p) }
+func raceReleaseMerge(p unsafe.Pointer) { runtime.RaceReleaseMerge(p) }
